@@ -252,6 +252,8 @@ pub struct CloneOpts {
     pub retries: u32,
     pub retry_delay: u64,
     pub timeout: Option<u64>,
+    /// --http-header values ("Name: value")
+    pub headers: Vec<String>,
 }
 
 pub fn clone_args(archive: &str, output: &str, o: &CloneOpts) -> Vec<String> {
@@ -300,6 +302,10 @@ pub fn clone_args(archive: &str, output: &str, o: &CloneOpts) -> Vec<String> {
         if let Some(t) = o.timeout {
             a.push("--http-timeout".into());
             a.push(t.to_string());
+        }
+        for h in &o.headers {
+            a.push("--http-header".into());
+            a.push(h.clone());
         }
         a.push(URL.into());
     } else {
